@@ -37,6 +37,20 @@ func alphabet18r() []int {
 		blockSize - 12, blockSize - 11, blockSize - 8, blockSize - 7, blockSize, blockSize + 1, 2*blockSize + 3}
 }
 
+// inReduced: all sizes belong to the reduced alphabet.
+func inReduced(sizes []int) bool {
+	for _, s := range sizes {
+		ok := false
+		for _, r := range alphabet18r() {
+			ok = ok || r == s
+		}
+		if !ok {
+			return false
+		}
+	}
+	return true
+}
+
 func isSmallShape(sizes []int) bool {
 	for _, s := range sizes {
 		if s > 40 {
@@ -222,7 +236,12 @@ func (a *acc) account(l *logImg, logKey uint64, kind string, off int, res readRe
 	a.trans += res.Calls
 	ec := errClass(res.Err)
 	a.outcomes[outKey{l.Format, kind, ec, res.N == len(l.Recs)}]++
-	a.states[vlib.Hash(logKey, kind, res.N, ec)] = struct{}{}
+	if kind == "recycled" {
+		// the state of a recycled read: (new log, bytes of it written, records returned, end)
+		a.states[vlib.Hash(l.Format, fmt.Sprint(l.Sizes), kind, off, res.N, ec)] = struct{}{}
+	} else {
+		a.states[vlib.Hash(logKey, kind, res.N, ec)] = struct{}{}
+	}
 	if res.N > 0 && res.N < len(l.Recs) {
 		a.nontr[vlib.Hash(logKey, kind, l.chunkAt(off))] = struct{}{}
 	}
@@ -276,13 +295,13 @@ func zeroTailImage(l *logImg, p int) io.Reader {
 }
 
 // recycled runs the new log written over every longer old log.
-func (r *run18) recycled(nl *logImg, olds []*logImg, smallOnly bool, pm1 bool) {
+func (r *run18) recycled(nl *logImg, olds []*logImg, smallOnly bool, pm1 bool, reducedOnly bool) {
 	c := r.c
 	cuts := overlayCuts18(nl, pm1)
 	a := newAcc()
 	defer a.flush(r)
 	for _, ol := range olds {
-		if len(ol.Data) <= len(nl.Data) {
+		if len(ol.Data) <= len(nl.Data) || (reducedOnly && !inReduced(ol.Sizes)) {
 			continue
 		}
 		small := isSmallShape(ol.Sizes) && isSmallShape(nl.Sizes)
@@ -376,11 +395,16 @@ func check18(c *vlib.Ctx) {
 	}
 	nDepth2 := len(shapes)
 	stride := 509
+	recShapes := shapes // new logs of the recycled phase
 	if c.Thorough() {
 		stride = 61
 		al3 := alphabet18r()
+		recShapes = append([][]int(nil), shapes...)
 		for i, n := 0, vlib.SeqCount(len(al3), 3, 3); i < n; i++ {
-			shapes = append(shapes, decode(al3, i, 3, 3))
+			recShapes = append(recShapes, decode(al3, i, 3, 3))
+		}
+		for i, n := 0, vlib.SeqCount(K, 3, 3); i < n; i++ {
+			shapes = append(shapes, decode(alpha, i, 3, 3))
 		}
 	}
 	r := &run18{c: c, stride: stride}
@@ -446,8 +470,10 @@ func check18(c *vlib.Ctx) {
 				sizes []int
 			}
 			var jobs []job
-			for _, s := range shapes {
-				if small && !isSmallShape(s) {
+			// quick tier, block-sized logs: old and new logs over the reduced alphabet only
+			reducedOnly := !small && !c.Thorough()
+			for _, s := range recShapes {
+				if (small && !isSmallShape(s)) || (reducedOnly && !inReduced(s)) {
 					continue
 				}
 				for _, f := range []int{fRecyclable, fWALSync} {
@@ -467,9 +493,9 @@ func check18(c *vlib.Ctx) {
 					}
 				}
 				pm1 := small || (c.Thorough() && len(j.sizes) <= 2)
-				r.recycled(nl, olds[j.nf], small, pm1)
+				r.recycled(nl, olds[j.nf], small, pm1, reducedOnly)
 				if c.Thorough() && len(j.sizes) <= 2 {
-					r.recycled(nl, olds[3-j.nf], small, pm1)
+					r.recycled(nl, olds[3-j.nf], small, pm1, reducedOnly)
 				}
 			})
 			notes = append(notes, fmt.Sprintf("%s: %d of %d new logs, %d images read", name, done, len(jobs), r.cases.Load()-before))
@@ -486,8 +512,8 @@ func check18(c *vlib.Ctx) {
 	c.Note("scope", fmt.Sprintf("record sizes %v; sequences of 1..2 sizes (%d)%s; writers legacy/recyclable/walsync (LogWriter: SyncRecord + wait after every record); "+
 		"cuts: all offsets for logs <= 4096 bytes, else all offsets within 40 bytes of every chunk start/payload start/chunk end/block boundary plus every %dth offset; "+
 		"zeroed tail from every offset (logs <= 4096 bytes) or every 4 KiB boundary, file extended with zeros to a page boundary; "+
-		"recycled: new log number %d over every LONGER old log number %d of 1..2 records (quick: same format; thorough: both formats for new logs of 1..2 records), "+
+		"recycled: new log number %d over every LONGER old log number %d of 1..2 records (quick: same format, and when a log larger than 150 bytes is involved both logs over the reduced alphabet "+fmt.Sprint(alphabet18r())+"; thorough: full alphabet, both formats for new logs of 1..2 records), "+
 		"new log complete or written only up to a chunk start/payload start/chunk end/block boundary (also -1/+1 when both logs are small, and in the thorough tier for new logs of 1..2 records).",
-		alpha, nDepth2, map[bool]string{true: fmt.Sprintf(" plus all %d sequences of 3 sizes from %v", len(shapes)-nDepth2, alphabet18r()), false: ""}[c.Thorough()],
+		alpha, nDepth2, map[bool]string{true: fmt.Sprintf(" plus all %d sequences of 3 sizes (recycled phase: new logs of 3 records only over %v)", len(shapes)-nDepth2, alphabet18r()), false: ""}[c.Thorough()],
 		stride, newLogNum, oldLogNum))
 }
